@@ -12,6 +12,10 @@ type Desc struct {
 	// Dotted: the PROTO package of the file(s) is a dotted name (acme.<pkg>.v1) while the Go package stays <pkg>:
 	// type names in the descriptors read .acme.<pkg>.v1.Msg
 	Dotted bool `json:"dotted"`
+	// Nested: messages of Msgs that are DECLARED INSIDE another message of the file: k = the message's (unique) name in
+	// Msgs, v = "Parent" or "Parent:Name" when the declared simple name differs from k (two nested messages of different
+	// parents may share their simple name).  A field that refers to k refers to that nested declaration.
+	Nested []KV `json:"nested"`
 }
 
 // Dep is an unrelated dependency file (C12).
